@@ -121,6 +121,13 @@ class RDFWriter(object):
         :return: An RDF graph.
         """
         self.hub_root = URIRef(ODML_NS.Hub)
+
+        # Every conversion starts with an empty graph. A writer that is used more
+        # than once would otherwise export every value sequence once per conversion
+        # as well as content that has been changed or removed in the meantime.
+        self.graph = Graph()
+        self.graph.bind("odml", ODML_NS)
+
         if self.docs:
             for doc in self.docs:
                 if isinstance(doc, odml.doc.BaseDocument):
